@@ -236,6 +236,14 @@ func (l *Lexer) string(quoteChar byte) (Token, error) {
 	return l.stringToken(Str, l.pos-l.tokenStart-1), nil
 }
 
+// the parser calls this when it finds '/=' in prefix position: the '=' is
+// the first character of the regex that Regex reads next
+func (l *Lexer) unreadEqual() {
+	if l.pos > 0 && l.src[l.pos-1] == '=' {
+		l.pos--
+	}
+}
+
 // the parser calls this when it finds a '/' in prefix position
 func (l *Lexer) Regex() (Token, error) {
 	for !l.atEnd() && l.peek() != '/' {
